@@ -258,7 +258,7 @@ def run_group(bu, g, extra_defs=(), label=None):
         repl = list(g.replace) + [a for a in bu.unit.abstract if a not in g.replace and a != g.enforce
                                   and bu.unit.contract_for(a, bu.cfg) is not None]
         for r in repl:
-            if r in present:       # functions compiled out in this configuration (e.g. ASSERT-only helpers) are skipped
+            if r in present and bu.unit.contract_for(r, bu.cfg) is not None:       # functions compiled out in this configuration (e.g. ASSERT-only helpers) are skipped
                 gi += ['--replace-call-with-contract', r]
         if g.attrs.get('loops') == 'yes':
             gi += ['--apply-loop-contracts']
